@@ -1,4 +1,5 @@
 import GemVerif.Props.C02
+import GemVerif.Props.C02Wass
 #print axioms GemVerif.Props.C02.klGrad_clipped_zero
 #print axioms GemVerif.Props.C02.tvGrad_clipped_zero
 #print axioms GemVerif.Props.C02.hellingerGrad_clipped_zero
@@ -16,3 +17,9 @@ import GemVerif.Props.C02
 #print axioms GemVerif.Props.C02.mmd_ova_hasDerivAt
 #print axioms GemVerif.Props.C02.tv_ovo_hasDerivAt
 #print axioms GemVerif.Props.C02.mmd_ovo_hasDerivAt
+#print axioms GemVerif.Props.C02Wass.wass_ova_hasDerivAt
+#print axioms GemVerif.Props.C02Wass.wass_ovo_hasDerivAt
+#print axioms GemVerif.Props.C02Wass.wass_ova_hasDerivAt_of_envelope
+#print axioms GemVerif.Props.C02Wass.wass_ovo_hasDerivAt_of_envelope
+#print axioms GemVerif.Props.C02Wass.wassGrad_shift_invariant
+#print axioms GemVerif.Props.C02Wass.emdEnvelopeAt_shift_invariant
